@@ -122,6 +122,20 @@ impl Style {
 }
 
 pub fn gen_string(rng: &mut Rng) -> String {
+    if rng.chance(1, 14) {
+        // several long lines: rendered as a block scalar when the style allows it
+        let n = rng.range(2, 4);
+        let mut lines = Vec::new();
+        for _ in 0..n {
+            let mut l = String::new();
+            while l.chars().count() < 24 {
+                l.push_str(&**rng.pick(WORDS));
+                l.push(' ');
+            }
+            lines.push(l.trim_end().to_string());
+        }
+        return lines.join("\n");
+    }
     match rng.below(10) {
         0 => rng.pick(TRICKY).to_string(),
         1 | 2 => format!("{} {}", rng.pick(WORDS), rng.pick(WORDS)),
@@ -387,13 +401,19 @@ fn block(n: &Node, out: &mut Out, rng: &mut Rng, indent: usize) {
                     && out.st.block_scalars
                     && block_scalar_ok(s)
                 {
-                    out.s.push_str(" |-");
-                    out.s.push('\n');
-                    for l in s.split('\n') {
+                    let eol = if out.st.crlf { "\r\n" } else { "\n" };
+                    out.s.push_str(if rng.chance(1, 3) { " >-" } else { " |-" });
+                    out.s.push_str(eol);
+                    let folded = out.s.ends_with(&format!(">-{eol}"));
+                    for (li, l) in s.split('\n').enumerate() {
+                        if folded && li > 0 {
+                            // a blank line keeps the line break in a folded scalar
+                            out.s.push_str(eol);
+                        }
                         out.s.push_str(&pad);
                         out.s.push_str(&" ".repeat(out.st.indent));
                         out.s.push_str(l);
-                        out.s.push('\n');
+                        out.s.push_str(eol);
                     }
                 } else {
                     let t = flow(v, rng, out.st);
@@ -604,6 +624,12 @@ pub fn corpus() -> Vec<(String, Target)> {
         ("x: \"\\U0001F600\"\n", Json),
         ("- é\n- 日\n- 😀\n- ñandú\n", VecS),
         ("- 'a'\n- \"b\"\n- c\n", VecS),
+        ("text: |\r\n  a long line of literal text goes here\r\n  second long line of text with éé and 日本\r\nnext: >\r\n  folded long line number one is here\r\n  and two\r\n\r\n  para\r\n", Json),
+        ("text: |\n  a long line of literal text goes here\n  second long line of text with éé and 日本\nnext: >-\n  folded long line number one is here\n  and two\n", Json),
+        ("- |+\r\n  keep trailing breaks in this long line\r\n\r\n- >\r\n  x\r\n", VecS),
+        ("|\r\n  literal root scalar with a fairly long first line\r\n  short\r\n", Str),
+        ("k: \"double quoted that continues\r\n  on a second line of reasonable length\"\r\n", Json),
+        ("k: plain scalar that continues\r\n  on a second line of reasonable length\r\n", Json),
     ];
     raw.into_iter().map(|(s, t)| (s.to_string(), t)).collect()
 }
